@@ -1455,6 +1455,9 @@ func checkPanicSites(r *Run, prog *Program, a *Anchors, pfx string, roots map[*s
 	// pure helpers analysed on their own too (parameters: any kind)
 	for f := range roots {
 		if isPureReflectHelper(prog, f) {
+			if prog.contextOnly(f, func(x *ssa.Function) bool { return roots[x] }) {
+				continue // only ever runs as a static call from an analysed function, where it was interpreted in place
+			}
 			c.analyseFunc(f)
 		}
 	}
